@@ -89,6 +89,7 @@ PROPS = {
     ),
     "C15": dict(
         props="Props/C15.v", tables=["core"],
+        src=["py_get_atomic_sets", "py_compute_atomic_sets", "py_Feature_is_mandatory", "py_Feature_get_children"],
         suites=[suite_o.make_run("O-atomic", ["atomic"], with_ctcs=True, big=("star",), check_sem=True)],
         rule=("suite O-atomic: FMAtomicSets (re-used operation object) vs the model's [atomic_sets] (sets as sorted "
               "name lists, list order kept); oracle: partition, co-selection over all valid configurations, "
@@ -232,7 +233,8 @@ PROPS = {
         src=["py_FMEstimatedConfigurationsNumber_execute", "py_FMEstimatedConfigurationsNumber_get_result",
              "py_FMCoreFeatures_execute", "py_FMCoreFeatures_get_result", "py_FMCountLeafs_execute",
              "py_FMLeafFeatures_execute", "py_FMMaxDepthTree_execute", "py_FMAverageBranchingFactor_execute",
-             "py_FMVariationPoints_execute", "py_FMFeatureAncestors_execute", "py_FMFeatureAncestors_set_feature"],
+             "py_FMVariationPoints_execute", "py_FMFeatureAncestors_execute", "py_FMFeatureAncestors_set_feature",
+             "py_FMAtomicSets_execute"],
         suites=[suite_h.run_history, suite_h.run_genrandom],
         rule=("suite O-history: sequences of three look-alike models (equal-comparing but different, same names in other "
               "positions) through the nine read-only operations and FMMetrics on re-used operation objects; each result "
